@@ -19,6 +19,7 @@ package main
 import (
 	"bytes"
 	"crypto/sha256"
+	"encoding/binary"
 	"encoding/hex"
 	"encoding/json"
 	"fmt"
@@ -660,6 +661,7 @@ func diffCase(r *vf.Run, i int, tag string) {
 	nd := report(r, cc, cs, idx)
 	// --- Clone + Close: closing a clone must not change what the origin answers
 	//     (memory: Close is a no-op). Done last because it may destroy the db reader.
+	tocOffsetHints(r, cs, idx, i, bdb, probeSeed)
 	cloneRightAfterOpen(r, cs, idx, i, bdb, dm, dd, probeSeed)
 	cloneClose(r, cs, idx, mem.r, dbo.r, rep)
 
@@ -687,6 +689,119 @@ func diffCase(r *vf.Run, i int, tag string) {
 	if i%7 == 0 || nd > 0 {
 		r.Sample(map[string]any{"case": idx, "desc": trunc(cs.Desc, 600), "paths": paths, "files_read": filesRead, "divergences": nd,
 			"memory_ops": strings.Join(dm.OpTrace, ","), "db_ops": strings.Join(dd.OpTrace, ","), "toc_digest": dm.TOCDigest})
+	}
+}
+
+// realTOCOffset reads the TOC position out of the blob's footer (gzip: 51-byte footer,
+// zstd:chunked: 40-byte footer); -1 when the blob holds no TOC (external TOC).
+func realTOCOffset(b []byte) int64 {
+	if n := len(b); n >= 51 && string(b[n-51+32:n-51+38]) == "STARGZ" {
+		if off, err := strconv.ParseInt(string(b[n-51+16:n-51+32]), 16, 64); err == nil {
+			return off
+		}
+	}
+	if n := len(b); n >= 40 && string(b[n-8:]) == "GnUlInUx" {
+		return int64(binary.LittleEndian.Uint64(b[n-40 : n-32]))
+	}
+	return -1
+}
+
+// tocOffsetHints: clause "open options". Both stores are opened with
+// metadata.WithTOCOffset(hint) (what store/manager.go passes from the zstd:chunked
+// manifest-position annotation) for hints {real, real±small, far below, size/4, 0}. The
+// footer stays authoritative in both implementations, so for these valid blobs the stores
+// must accept/reject alike, report the same TOC digest, and (one lower hint per case)
+// walk alike.
+func tocOffsetHints(r *vf.Run, cs *oneCase, idx string, i int, bdb *bolt.DB, probeSeed uint64) {
+	size := int64(len(cs.Blob))
+	real := realTOCOffset(cs.Blob)
+	if real < 0 {
+		real = size / 2
+	}
+	rng := r.RNG(uint64(i), 6)
+	type hint struct {
+		class string
+		off   int64
+	}
+	lowerNear := []hint{{"lower", real - 1}, {"lower", real - 7}}
+	lowerFar := []hint{{"lower", real / 2}, {"lower", size / 4}, {"lower", real - 100}}
+	other := []hint{{"higher", real + 1}, {"higher", real + 10}, {"zero", 0}}
+	hs := []hint{{"exact", real}, lowerNear[rng.Intn(2)], lowerFar[rng.Intn(3)], other[rng.Intn(3)]}
+	walkAt := 1 + rng.Intn(2) // one of the two lower hints gets a full (light) walk
+	for k, h := range hs {
+		if h.off < 0 || h.off > size {
+			continue
+		}
+		opts := append(resolverOpts(cs), metadata.WithTOCOffset(h.off))
+		var mo, do opened
+		pm, vm, sm := vf.Recover(func() {
+			if cs.memStore != nil {
+				mo.r, mo.err = cs.memStore(section(cs.Blob), opts...)
+			} else {
+				mo.r, mo.err = memorymetadata.NewReader(section(cs.Blob), opts...)
+			}
+		})
+		pd, vd, sd := vf.Recover(func() {
+			if cs.dbStore != nil {
+				do.r, do.err = cs.dbStore(section(cs.Blob), opts...)
+			} else {
+				do.r, do.err = dbmetadata.NewReader(bdb, section(cs.Blob), opts...)
+			}
+		})
+		det := map[string]any{"case": idx, "desc": cs.Desc, "hint": h.off, "real_toc_offset": real, "blob_size": size}
+		for k, v := range cs.Replay {
+			det[k] = v
+		}
+		if pm {
+			r.Violate("crash:panic-on-valid-blob@memory@toc-offset-hint:"+crashSite(fmt.Sprint(vm), sm), "memory NewReader panics with a TOC offset hint", det)
+			mo.err = fmt.Errorf("panic")
+		}
+		if pd {
+			r.Violate("crash:panic-on-valid-blob@db@toc-offset-hint:"+crashSite(fmt.Sprint(vd), sd), "db NewReader panics with a TOC offset hint", det)
+			do.err = fmt.Errorf("panic")
+		}
+		dbErr := do.err
+		if dbErr == nil {
+			if _, _, err := do.r.GetChild(do.r.RootID(), "\x01"); err != nil && strings.Contains(err.Error(), "initialization failed") {
+				dbErr = err
+			}
+		}
+		r.Count("toc_offset_hint_opens:"+h.class, 1)
+		r.Distinct("toc_offset_hint_outcomes", fmt.Sprintf("%s memory:%v db:%v", h.class, mo.err == nil, dbErr == nil))
+		switch {
+		case (mo.err == nil) != (dbErr == nil):
+			who, e := "db", dbErr
+			if mo.err != nil {
+				who, e = "memory", mo.err
+			}
+			det["memory_error"], det["db_error"] = fmt.Sprint(mo.err), fmt.Sprint(dbErr)
+			r.Violate("accept:"+who+"-rejects-valid-blob@toc-offset-hint-"+h.class+cs.via+":"+errShape(e),
+				fmt.Sprintf("opened with metadata.WithTOCOffset(%d) (real TOC offset %d, blob size %d) only the %s store rejects this valid blob: %v", h.off, real, size, who, e), det)
+			r.Distinct("divergence_keys", "accept:"+who+"-rejects-valid-blob@toc-offset-hint-"+h.class)
+		case mo.err == nil:
+			if a, b := mo.r.TOCDigest(), do.r.TOCDigest(); a != b {
+				det["memory"], det["db"] = a.String(), b.String()
+				r.Violate("tocdigest:differs@toc-offset-hint-"+h.class, "TOCDigest() differs when opened with a TOC offset hint", det)
+			}
+			if k == walkAt {
+				a := walk("memory", mo.r, cs.Blob, r.RNG(uint64(i), 7), probeSeed, cs.Truth, 0, true)
+				b := walk("db", do.r, cs.Blob, r.RNG(uint64(i), 8), probeSeed, cs.Truth, 0, true)
+				c := compareDumps("stores", "memory", "db", a, b, cs.Facts)
+				for k := range c.out {
+					c.out[k].Key += "@toc-offset-hint-" + h.class
+					c.out[k].Detail["hint"] = h.off
+					c.out[k].Detail["real_toc_offset"] = real
+				}
+				report(r, c, cs, idx)
+				r.Count("toc_offset_hint_walks", 1)
+			}
+		}
+		if mo.r != nil {
+			mo.r.Close()
+		}
+		if do.r != nil {
+			do.r.Close()
+		}
 	}
 }
 
